@@ -52,6 +52,7 @@ def random_scenario(rng):
     cfg = {"full": rng.random() < 0.5, "mouse": rng.random() < 0.7, "clear": rng.random() < 0.8}
     if not cfg["full"]:
         cfg["height"] = rng.choice(["10", "5", "~8", "50%", "3", "100%"])
+        cfg["full"] = cfg["height"] == "100%"        # CODE-DERIVED: --height=100% is the full screen mode
     extra = list(rng.choice(DECOR)) + list(rng.choice(DECOR + [[]] * 8))
     startup, default_command, input_cmd = [], None, None
     r = rng.random()
@@ -70,6 +71,8 @@ def random_scenario(rng):
         input_cmd = "echo a; echo b; sleep 1005"
     steps = []
     alive = set(startup)
+    if input_cmd:
+        alive.add("reload")      # a reload is deferred until the piped input ends (never here): not driven
     owner = None
     for _ in range(rng.choice([0, 0, 1, 1, 2, 3, 4])):
         c = rng.random()
@@ -187,6 +190,7 @@ def robust_scenario(rng, tier_quick):
     cfg = {"full": rng.random() < 0.6, "mouse": rng.random() < 0.8, "clear": rng.random() < 0.85}
     if not cfg["full"]:
         cfg["height"] = rng.choice(["10", "1", "2", "~5", "50%", "100%", "3"])
+        cfg["full"] = cfg["height"] == "100%"        # CODE-DERIVED: --height=100% is the full screen mode
     extra = []
     for _ in range(rng.choice([0, 1, 1, 2, 3])):
         o = rng.choice(ROBUST_OPTS)
@@ -374,7 +378,7 @@ def run(ctx):
         try:
             return ix, runner(sc)(ctx, fzf, ix, sc)
         except Infra as ex:
-            raise Infra("life %d (%s): %s" % (ix, sc["kind"], ex))
+            raise Infra("life %d (%s): %s\nscenario: %s" % (ix, sc["kind"], ex, json.dumps({k: v for k, v in sc.items() if k != "data"})[:1500]))
     results = {}
     with ThreadPoolExecutor(max_workers=PAR) as ex:
         for ix, evs in ex.map(do, range(len(scenarios))):
